@@ -354,6 +354,9 @@ pub struct IoCase {
     pub stream: Option<Vec<u8>>,
     /// how many times a failed recv is retried (C09)
     pub recv_retries: usize,
+    /// how many more times recv is called after a terminal outcome (Closed, Parse, an unretried Read error): every
+    /// call has to return again (C10)
+    pub recv_after_terminal: usize,
     /// keep sending after a failed send (C09)
     pub send_after_error: bool,
     pub max_calls: usize,
@@ -488,6 +491,7 @@ pub fn run_blocking<M: Shape + ?Sized>(c: &IoCase) -> IoTrace {
         macro_rules! recv_loop {
             ($receiver:expr) => {{
                 let mut retries = c.recv_retries;
+                let mut extra = c.recv_after_terminal;
                 let mut n = 0;
                 loop {
                     n += 1;
@@ -502,18 +506,28 @@ pub fn run_blocking<M: Shape + ?Sized>(c: &IoCase) -> IoTrace {
                         }
                         Err(RecvError::Closed) => {
                             events.push(RecvEvent::Closed);
-                            break;
+                            if extra == 0 {
+                                break;
+                            }
+                            extra -= 1;
                         }
                         Err(RecvError::Parse(e)) => {
                             events.push(RecvEvent::Parse(format!("{:?}@{}", e.kind, e.pos)));
-                            break;
+                            if extra == 0 {
+                                break;
+                            }
+                            extra -= 1;
                         }
                         Err(RecvError::Read(e)) => {
                             events.push(RecvEvent::Read(format!("{:?}", e.kind())));
                             if retries == 0 {
-                                break;
+                                if extra == 0 {
+                                    break;
+                                }
+                                extra -= 1;
+                            } else {
+                                retries -= 1;
                             }
-                            retries -= 1;
                         }
                     }
                 }
@@ -825,6 +839,7 @@ pub fn run_async<M: Shape + ?Sized>(c: &IoCase) -> IoTrace {
         let monitored = c.monitored;
         let buf_cap = c.buf_cap;
         let mut retries = c.recv_retries;
+        let mut extra = c.recv_after_terminal;
         let max_recvs = c.max_recvs;
         let receiver_task = async move {
             let fl = rfault.as_ref().map_or(0, |f| f.times);
@@ -845,18 +860,28 @@ pub fn run_async<M: Shape + ?Sized>(c: &IoCase) -> IoTrace {
                             }
                             Err(RecvError::Closed) => {
                                 ev2.borrow_mut().push(RecvEvent::Closed);
-                                break;
+                                if extra == 0 {
+                                    break;
+                                }
+                                extra -= 1;
                             }
                             Err(RecvError::Parse(e)) => {
                                 ev2.borrow_mut().push(RecvEvent::Parse(format!("{:?}@{}", e.kind, e.pos)));
-                                break;
+                                if extra == 0 {
+                                    break;
+                                }
+                                extra -= 1;
                             }
                             Err(RecvError::Read(e)) => {
                                 ev2.borrow_mut().push(RecvEvent::Read(format!("{:?}", e.kind())));
                                 if retries == 0 {
-                                    break;
+                                    if extra == 0 {
+                                        break;
+                                    }
+                                    extra -= 1;
+                                } else {
+                                    retries -= 1;
                                 }
-                                retries -= 1;
                             }
                         }
                     }
